@@ -296,6 +296,9 @@ func persistProfile(r *rand.Rand, idx int, tier string) *eng.Case {
 	c := baseCase(r, plansOf(r, &g, nPlans(r)))
 	c.VaultDelayUS = []int{300, 1500, 3000}[r.Intn(3)]
 	c.Poll = idx%2 == 0
+	if c.Poll && len(c.Plans) > 1 {
+		c.Plans = c.Plans[:1] // one poller only: a single pooled connection serves readers and the engine
+	}
 	return c
 }
 
@@ -614,7 +617,7 @@ func init() {
 	})
 	register(&Prop{
 		ID: "C08", Level: "exploration", Batch: 16, PerCaseTimeout: 70 * time.Second,
-		Rule:  "case i = PRNG(seed,i) from the 'order' profile with retries and vault delays of up to 3 ms before/after every storage call; every second case has a goroutine per plan polling Plan(id) in a tight loop; distinct by final-status hash",
+		Rule:  "case i = PRNG(seed,i) from the 'order' profile with retries and vault delays of up to 3 ms before/after every storage call; every second case (single plan) has a goroutine polling Plan(id) every 3 ms; distinct by final-status hash",
 		Cases: nCases(300, 6000),
 		Run: engineRun("C08", persistProfile, func(c *eng.Case, run *eng.Run, pr *eng.PlanRun, t *oracle.Trace, res *CaseResult) {
 			res.Viols = append(res.Viols, oracle.C08(pr.Spec, t, pr.P0)...)
